@@ -459,7 +459,7 @@ PROP = Property(
           "timeout class, EINTR)."),
     strategy=strategy,
     run_case=run_case,
-    budgets={"quick": 24000, "thorough": 1500000},
+    budgets={"quick": 24000, "thorough": 250000},
     extra_tiers=[("live", live_tier)],
     assumptions=[
         "wait(timeout=None) on a process that never exits is not generated (would not terminate)",
